@@ -67,7 +67,8 @@ def check_prettyprint(rep, prog, ascii_only):
     where = "prettyPrint"
     # line splitting / joining
     splits = [x for x in walk(r) if isinstance(x, Op) and x.op in ("m:split", "m:splitlines")]
-    ok = isinstance(r, Op) and r.op == "m:join" and r.args[0] == Const("\n") and len(splits) == 1 and splits[0].args[0] == md and r.args[1] == splits[0]
+    # (that the joined sequence is one output line per split line, in order, is established below)
+    ok = isinstance(r, Op) and r.op == "m:join" and r.args[0] == Const("\n") and len(splits) == 1 and splits[0].args[0] == md
     how = splits[0].op if splits else None
     if ok and how == "m:split":
         ok = splits[0].args[1:] == (Const("\n"),)
@@ -79,13 +80,16 @@ def check_prettyprint(rep, prog, ascii_only):
               "the text is not split and re-joined at exactly the newline characters json.dumps wrote (%s%s): a line separator inside a string value "
               "would be turned into a raw newline" % (how, "" if ascii_only else ", with ensure_ascii=False"))
     lines = splits[0] if splits else None
-    stores = [e for e in I.events if e.kind in ("ext_setitem", "list_setitem") and e.func == PP]
-    if len(stores) != 1 or lines is None:
-        raise AnalysisError("prettyPrint: expected exactly one line rewrite, found %d" % len(stores))
-    st = stores[0]
-    base, idx, val = st.data
-    parts = flat_parts(val)
-    line = parts[0].args[0] if parts and isinstance(parts[0], Op) and parts[0].op == "getslice" else None
+    if lines is None:
+        raise AnalysisError("prettyPrint: the text is not split into lines")
+
+    def flat_conds(c):
+        """conjuncts of a condition, with not(a or b) opened up"""
+        if isinstance(c, Op) and c.op == "and":
+            return [y for x in c.args for y in flat_conds(x)]
+        if isinstance(c, Op) and c.op == "not" and isinstance(c.args[0], Op) and c.args[0].op == "or":
+            return [y for x in c.args[0].args for y in flat_conds(not_(x))]
+        return [c]
 
     def elem_index(t):
         """t is the i-th element of `lines` -> i (a term)"""
@@ -95,27 +99,71 @@ def check_prettyprint(rep, prog, ascii_only):
                 t.args[0].args[0] == Op("enumerate", lines):
             return Op("getitem", t.args[0], Const(0))
         return None
-    li = elem_index(line) if line is not None else None
-    same_slot = li is not None and (idx == li or (isinstance(li, Sym) and idx == li))
-    okw = line is not None and len(parts) == 3 and parts[0].args[1] == NONE \
+
+    # the per-line transformation, in either style: (a) rewritten lines stored back into the list that is joined,
+    # (b) a new sequence of lines built by mapping a function over the split lines
+    stores = [e for e in I.events if e.kind in ("ext_setitem", "list_setitem")]
+    rewrites = []           # (conditions, new text) ; every other path keeps the line
+    node = None
+    joined = r.args[1] if isinstance(r, Op) and r.op == "m:join" and len(r.args) == 2 else None
+    if len(stores) == 1 and joined == lines:
+        st = stores[0]
+        node = st.node
+        base, idx, val = st.data
+        parts0 = flat_parts(val)
+        line = parts0[0].args[0] if parts0 and isinstance(parts0[0], Op) and parts0[0].op == "getslice" else None
+        li = elem_index(line) if line is not None else None
+        same_slot = base == lines and li is not None and idx == li
+        rewrites.append((flat_conds(st.guard), val))
+    elif not stores and (isinstance(joined, Ref) or (isinstance(joined, Op) and joined.op == "listsummary")):
+        if isinstance(joined, Ref):
+            its = pelx.list_items(I, joined) or []
+        else:
+            its = [("rep", I.loops.get(a.args[0].v), a.args[1], a.args[2]) if isinstance(a, Op) and a.op == "rep" else ("v", a, TRUE)
+                   for a in joined.args]
+        if len(its) != 1 or its[0][0] != "rep" or its[0][3] != TRUE or its[0][1] is None or its[0][1].iter != lines or its[0][1].stops:
+            raise AnalysisError("prettyPrint: the joined lines are not one output line per input line, in order")
+        L = its[0][1]
+        line = Op("elem", lines, L.idx)
+        node = L.node
+        same_slot = True
+
+        def leaves(t, cs):
+            if isinstance(t, Ite):
+                leaves(t.a, cs + flat_conds(t.c))
+                leaves(t.b, cs + flat_conds(not_(t.c)))
+            elif t != line:
+                rewrites.append((cs, t))
+        from ..interp import _strip_undef
+        leaves(_strip_undef(its[0][2]), [])
+    else:
+        raise AnalysisError("prettyPrint: per-line rewriting idiom not recognised (%d stores)" % len(stores))
+    if len(rewrites) != 1:
+        raise AnalysisError("prettyPrint: expected exactly one way a line is rewritten, found %d" % len(rewrites))
+    guard_conds, val = rewrites[0]
+    parts = flat_parts(val)
+    if line is None and parts and isinstance(parts[0], Op) and parts[0].op == "getslice":
+        line = parts[0].args[0]
+    okw = line is not None and len(parts) == 3 and isinstance(parts[0], Op) and parts[0].op == "getslice" and parts[0].args[0] == line \
+        and parts[0].args[1] == NONE \
         and isinstance(parts[2], Op) and parts[2].op == "getslice" and parts[2].args[0] == line and parts[2].args[2] == NONE \
         and parts[0].args[2] == parts[2].args[1]
     fill = parts[1] if len(parts) == 3 else None
     okfill = fill is not None and ((isinstance(fill, Op) and fill.op == "strmul" and Const(" ") in fill.args) or (is_const(fill, str) and set(fill.v) <= {" "}))
-    rep.check(okw and okfill and base == lines and same_slot, "C06.R2.whitespace-only",
-              "a rewritten line is line[:k] + blanks + line[k:] stored back into its own slot (nothing but spaces inserted, nothing removed)", where, st.node,
-              "the alignment pass does more than insert blanks at one position of the same line: %r" % (val,), node=st.node)
+    rep.check(okw and okfill and same_slot, "C06.R2.whitespace-only",
+              "a rewritten line is line[:k] + blanks + line[k:] in its own position (nothing but spaces inserted, nothing removed)", where, node,
+              "the alignment pass does more than insert blanks at one position of the same line: %r" % (val,), node=node)
     if not okw:
         return
     k = parts[0].args[2]
-    kind, matcher, off, no_lbrace, desc = extract_matcher(I, line, st.guard, k)
+    kind, matcher, off, no_lbrace, desc = extract_matcher(I, line, and_(*guard_conds), k)
     rep.note("split-point idiom: " + desc + (", lines containing '{' are left alone" if no_lbrace else ""))
     w = automata.search_bad_split(matcher, kind, off, require_no_lbrace=no_lbrace, ascii_only=ascii_only)
     rep.check(w is None, "C06.R3.split-point", "for every line json.dumps(indent) can emit, blanks are inserted only right after the '\":' that closes a key "
-              "(language inclusion over the line grammar; %s)" % desc, where, st.node,
+              "(language inclusion over the line grammar; %s)" % desc, where, node,
               "witness line %r: blanks are inserted at column %s, which is not the position right after the key's closing '\":' - a key or a "
               "string value containing '\":' is altered and the printed JSON no longer parses back to the document" % (w[0] if w else None, w[1] if w else None),
-              node=st.node)
+              node=node)
 
 
 def dumps_sites(prog):
